@@ -86,7 +86,13 @@ fn permutations(items: &[usize]) -> Vec<Vec<usize>> {
 }
 
 fn id(i: usize) -> String {
-    format!("verif/n{i}")
+    // node 1 has an id without a namespace, node 2 the same name inside a namespace (and sorting
+    // before it): a reference names exactly one of them
+    match i {
+        1 => "zz1".to_string(),
+        2 => "acme/zz1".to_string(),
+        _ => format!("verif/n{i}"),
+    }
 }
 
 fn package_toml_text(i: usize, deps: &[usize], dangling: Option<usize>) -> String {
@@ -264,7 +270,7 @@ fn check_dag(deps: &Dag, dep_lists: &[Vec<usize>]) -> (u64, Vec<Viol>, BTreeSet<
                 continue;
             }
         };
-        let order: Vec<usize> = out.iter().map(|w| w.buildpack_id.as_str().trim_start_matches("verif/n").parse::<usize>().unwrap()).collect();
+        let order: Vec<usize> = out.iter().map(|w| (0..n).find(|i| id(*i) == w.buildpack_id.as_str()).expect("an id of this workspace")).collect();
         shapes.insert(format!("{}:{}", n, order.len()));
         let want = closure(deps, &roots);
         let got: u8 = order.iter().fold(0, |a, i| a | (1 << i));
@@ -440,7 +446,7 @@ pub fn run(args: &Args) {
     rep.cov("dangling_cases", dj.len() as u64);
     rep.cov("distinct_nontrivial", nontrivial);
     rep.cov("distinct_outcomes", json!(shapes));
-    rep.cov("rule", "every labelled DAG on <= n nodes (n<=4: every permutation of every dependency list; n=5: ascending and descending), written as composite / libcnb.rs buildpack directories and loaded by the real build_libcnb_buildpacks_dependency_graph; every ordered non-empty root selection through the real get_dependencies; plus every DAG on <= 4 nodes with one dangling libcnb: dependency at each node (a well-formed unknown id, an invalid id, or a reserved id, by node index), and every DAG on <= 3 nodes with one package.toml that is not valid UTF-8 (an error, not a leaf); even nodes list their first dependency twice; node 1 is always a symlink to a directory outside the workspace root, nodes 0 and 3 live below top-level directories named `targets` and `target-jvm`; rescans: for every ordered pair (A, B) of DAGs on the same <= 3 nodes one directory is scanned as A, its package.toml files rewritten to B (buildpack.toml untouched) and scanned again in the same process, then back to A, then with a dangling reference added at each node: every scan must give exactly the edges on disk. non-trivial = workspaces with at least one edge");
+    rep.cov("rule", "every labelled DAG on <= n nodes (n<=4: every permutation of every dependency list; n=5: ascending and descending), written as composite / libcnb.rs buildpack directories and loaded by the real build_libcnb_buildpacks_dependency_graph; every ordered non-empty root selection through the real get_dependencies; plus every DAG on <= 4 nodes with one dangling libcnb: dependency at each node (a well-formed unknown id, an invalid id, or a reserved id, by node index), and every DAG on <= 3 nodes with one package.toml that is not valid UTF-8 (an error, not a leaf); even nodes list their first dependency twice; node 1's id is a bare name and node 2's id is that name inside a namespace; node 1 is always a symlink to a directory outside the workspace root, nodes 0 and 3 live below top-level directories named `targets` and `target-jvm`; rescans: for every ordered pair (A, B) of DAGs on the same <= 3 nodes one directory is scanned as A, its package.toml files rewritten to B (buildpack.toml untouched) and scanned again in the same process, then back to A, then with a dangling reference added at each node: every scan must give exactly the edges on disk. non-trivial = workspaces with at least one edge");
     rep.cov("bound", json!({"max_nodes": max_n}));
     rep.cov("exhaustive", true);
     rep.sample(json!({"dep_lists": jobs[jobs.len() / 2].1, "roots": "every ordered non-empty selection"}));
